@@ -6,7 +6,7 @@
      op  = ( 0 )                                            a Write / delete through the API
          | ( 1 api hi key ref obs unstable ( clobber* ) )   one request (BatchCheck: one per item)
    api: 0 Check, 1 BatchCheck item, 2 ListObjects, 3 ListUsers; answers are opaque codes interned by
-   the driver (0 denied, 1 allowed, 2.. error classes, 100.. result sets); `ref` is the answer of a
+   the driver (0 denied, 1 allowed, 2 = Request Cancelled, 3.. other error classes and result sets); `ref` is the answer of a
    cache-less server with the same engine on the same store state.
    unstable = 1: two reference evaluations on the same store state disagreed (engine
    non-determinism that has nothing to do with caching): the case is not judged.
@@ -30,7 +30,10 @@ let op_of v =
 
 let api_name a = match int_of_n a with 0 -> "Check" | 1 -> "BatchCheck" | 2 -> "ListObjects" | _ -> "ListUsers"
 
-let show_pred = function PExact a -> "exactly " ^ dec_of_n a | PAnyAnswer -> "any"
+let show_pred = function
+  | PExact a -> "exactly " ^ dec_of_n a
+  | PExactOrCancelled a -> "exactly " ^ dec_of_n a ^ " (or 2 = Request Cancelled, shared iterator)"
+  | PAnyAnswer -> "any"
 
 let f _id vs =
   match vs with
